@@ -1,6 +1,6 @@
 (* C01 - Hostile server responses never crash or hang a query.
    Rows proved so far: valve::query (every Valve game wrapper calls it). *)
-From GD Require Import Base.Prelude Model.Strings Model.Buffer Model.Net Model.Valve Proofs.Msafe Proofs.ValveTotal.
+From GD Require Import Base.Prelude Model.Strings Model.Buffer Model.Net Model.Valve Model.Quake Proofs.Msafe Proofs.ValveTotal Proofs.QuakeTotal.
 
 (* For every reply script (any datagrams, timeouts, send failures, in any
    order and number), every engine, gather and accepted timeout setting, the
@@ -18,6 +18,12 @@ Theorem c01_valve_script_shrinks : forall bz, (forall p s, safe (bz p s)) ->
   (length (n_udp (snd (Valve.query bz port e g t n))) <= length (n_udp n))%nat.
 Proof. intros bz Hbz port e g t n Hs Hr. exact (proj1 (proj2 (valve_query_ok bz Hbz port e g t Hs Hr n))). Qed.
 Print Assumptions c01_valve_script_shrinks.
+
+(* Quake 1/2/3 *)
+Theorem c01_quake_total : forall port v t u tc sf, settings_ok t ->
+  safe (fst (Quake.client_query port v t (net_init u tc sf))).
+Proof. exact quake_total. Qed.
+Print Assumptions c01_quake_total.
 
 (* hypotheses are satisfiable: default settings, and a hostile script *)
 Example c01_ex_settings : settings_ok None /\ retries_ok None /\ settings_ok (Some ts_default).
